@@ -78,3 +78,186 @@ pub proof fn lemma_prefix_code(a: StateEntry, x: Seq<u8>, b: StateEntry, y: Seq<
     assert(x =~= s.subrange(enc(a).len() as int, s.len() as int));
     assert(y =~= s.subrange(enc(b).len() as int, s.len() as int));
 }
+
+pub proof fn lemma_skip_wf(es: Seq<StateEntry>)
+    requires all_wf(es), es.len() > 0,
+    ensures all_wf(es.skip(1)), entry_wf(es[0]),
+{
+    assert(forall|i: int| 0 <= i < es.skip(1).len() ==> es.skip(1)[i] == es[i + 1]);
+}
+
+// unique decoding: two well-formed histories with the same bytes are the same history
+pub proof fn lemma_decode_unique(a: Seq<StateEntry>, b: Seq<StateEntry>)
+    requires all_wf(a), all_wf(b), enc_all(a) == enc_all(b),
+    ensures same_history(a, b),
+    decreases a.len(),
+{
+    lemma_journal_size(a);
+    lemma_journal_size(b);
+    if a.len() == 0 {
+        assert(enc_all(a).len() == 0);
+    } else {
+        assert(enc_all(a).len() >= 60);
+        assert(b.len() > 0);
+        lemma_enc_all_front(a);
+        lemma_enc_all_front(b);
+        lemma_skip_wf(a);
+        lemma_skip_wf(b);
+        lemma_prefix_code(a[0], enc_all(a.skip(1)), b[0], enc_all(b.skip(1)));
+        lemma_decode_unique(a.skip(1), b.skip(1));
+        assert forall|i: int| 0 <= i < a.len() implies same_entry(#[trigger] a[i], b[i]) by {
+            if i > 0 {
+                assert(a[i] == a.skip(1)[i - 1]);
+                assert(b[i] == b.skip(1)[i - 1]);
+            }
+        }
+    }
+}
+
+// label: C11.unique
+// The history a file is accepted as is determined by its bytes: one file never stands for two histories.
+pub proof fn c11_unique(file: Seq<u8>, a: Seq<StateEntry>, b: Seq<StateEntry>)
+    requires journal_of(file, a), journal_of(file, b),
+    ensures same_history(a, b),
+{
+    lemma_decode_unique(a, b);
+}
+
+// a non-empty strict prefix of one entry's encoding is not a sequence of whole entries
+proof fn lemma_torn_first(e: StateEntry, k: int, es: Seq<StateEntry>)
+    requires entry_wf(e), 0 < k < enc(e).len(), all_wf(es), enc_all(es) == enc(e).subrange(0, k),
+    ensures false,
+{
+    lemma_le_facts();
+    lemma_journal_size(es);
+    let t = enc(e).subrange(0, k);
+    if es.len() == 0 {
+        assert(enc_all(es).len() == 0);
+    } else {
+        lemma_enc_all_front(es);
+        lemma_skip_wf(es);
+        let f = es[0];
+        let r = enc_all(es.skip(1));
+        lemma_enc_fields(f, r);                       // entry_at(t, 0, f)
+        lemma_enc_fields(e, Seq::<u8>::empty());      // entry_at(enc(e), 0, e)
+        assert(enc(e) + Seq::<u8>::empty() =~= enc(e));
+        lemma_enc_len(f);
+        lemma_enc_len(e);
+        let m = enc(f).len() as int;
+        assert(m <= k);
+        // t and enc(e) agree below k: the context length field (48..52) is common
+        assert(t.subrange(48, 52) =~= enc(e).subrange(48, 52));
+        assert(le32(f.context@.len() as u32) == le32(e.context@.len() as u32));
+        let cl = e.context@.len() as int;
+        assert(f.context@.len() == cl);
+        // and so is the length field inside the command (m >= 52 + cl + 8)
+        assert(t.subrange(52 + cl + 4, 52 + cl + 8) =~= enc(e).subrange(52 + cl + 4, 52 + cl + 8));
+        assert(f.command@.subrange(4, 8) =~= t.subrange(52 + cl + 4, 52 + cl + 8));
+        assert(e.command@.subrange(4, 8) =~= enc(e).subrange(52 + cl + 4, 52 + cl + 8));
+        assert(le32((f.command@.len() - 8) as u32) == le32((e.command@.len() - 8) as u32));
+        assert(f.command@.len() == e.command@.len());
+        assert(m == enc(e).len());
+    }
+}
+
+proof fn lemma_torn_aux(es: Seq<StateEntry>, e: StateEntry, k: int, es2: Seq<StateEntry>)
+    requires all_wf(es), entry_wf(e), 0 < k < enc(e).len(), all_wf(es2), enc_all(es2) == enc_all(es) + enc(e).subrange(0, k),
+    ensures false,
+    decreases es.len(),
+{
+    let t = enc(e).subrange(0, k);
+    if es.len() == 0 {
+        assert(enc_all(es) + t =~= t);
+        lemma_torn_first(e, k, es2);
+    } else {
+        lemma_journal_size(es2);
+        lemma_journal_size(es);
+        if es2.len() == 0 {
+            assert(enc_all(es2).len() == 0);
+        } else {
+            lemma_enc_all_front(es);
+            lemma_enc_all_front(es2);
+            lemma_skip_wf(es);
+            lemma_skip_wf(es2);
+            assert(enc(es[0]) + enc_all(es.skip(1)) + t =~= enc(es[0]) + (enc_all(es.skip(1)) + t));
+            lemma_prefix_code(es2[0], enc_all(es2.skip(1)), es[0], enc_all(es.skip(1)) + t);
+            lemma_torn_aux(es.skip(1), e, k, es2.skip(1));
+        }
+    }
+}
+
+// label: C11.tail.torn
+// A journal whose last append was torn (a non-empty strict prefix of the new entry reached the file) is not a valid
+// journal of ANY history: by [C11.tail]/[C11.shape.load_post] the loader returns Err on it.
+pub proof fn c11_torn(file: Seq<u8>, es: Seq<StateEntry>, e: StateEntry, k: int, es2: Seq<StateEntry>)
+    requires journal_of(file, es), entry_wf(e), 0 < k < enc(e).len(),
+    ensures !journal_of(file + enc(e).subrange(0, k), es2),
+{
+    if journal_of(file + enc(e).subrange(0, k), es2) {
+        lemma_torn_aux(es, e, k, es2);
+    }
+}
+
+// label: C11.tamper
+// J is the journal of the true history h; a (possibly corrupted) file J2 is accepted as h2. Then h2 is h, or a proper
+// prefix of h (suffix loss — the one change the statement allows to go unnoticed), or h2 contains at some position an
+// entry that is not the true one and nevertheless satisfies the CRC equation (a CRC-32 collision/forgery — excluded by
+// A-dep(crc32) for the corruptions the property lists). Nothing else is possible.
+pub proof fn c11_tamper(j: Seq<u8>, h: Seq<StateEntry>, j2: Seq<u8>, h2: Seq<StateEntry>)
+    requires journal_of(j, h), journal_of(j2, h2),
+    ensures
+        same_history(h, h2)
+        || (h2.len() < h.len() && forall|i: int| 0 <= i < h2.len() ==> same_entry(#[trigger] h2[i], h[i]))
+        || exists|i: int| 0 <= i < h2.len() && (i >= h.len() || !same_entry(h2[i], h[i]))
+               && (#[trigger] h2[i]).checksum == crc_of(h2[i]) && h2[i].index == i,
+{
+    if !same_history(h, h2) && !(h2.len() < h.len() && forall|i: int| 0 <= i < h2.len() ==> same_entry(#[trigger] h2[i], h[i])) {
+        if h2.len() < h.len() {
+            let i = choose|i: int| 0 <= i < h2.len() && !same_entry(#[trigger] h2[i], h[i]);
+            assert(h2[i].checksum == crc_of(h2[i]));
+        } else if h2.len() > h.len() {
+            let i = h.len() as int;
+            assert(h2[i].checksum == crc_of(h2[i]));
+        } else {
+            let i = choose|i: int| 0 <= i < h.len() && !same_entry(#[trigger] h[i], h2[i]);
+            assert(h2[i].checksum == crc_of(h2[i]));
+        }
+    }
+}
+
+// label: C11.tamper.structure
+// Structural corruptions of a valid journal: an entry removed anywhere but at the end, an entry duplicated, two entries
+// exchanged. The resulting byte string is not the journal of any history, so the loader returns Err
+// ([C11.shape.load_post]); removing a whole SUFFIX leaves a valid journal of a prefix (the allowed case).
+pub proof fn c11_structure(h: Seq<StateEntry>, i: int, j: int, es2: Seq<StateEntry>)
+    requires chain0(h), all_wf(h), crc_ok(h), 0 <= i < h.len(), 0 <= j < h.len(),
+    ensures
+        i + 1 < h.len() ==> !journal_of(enc_all(h.remove(i)), es2),
+        !journal_of(enc_all(h.insert(i, h[i])), es2),
+        i != j ==> !journal_of(enc_all(h.update(i, h[j]).update(j, h[i])), es2),
+        journal_of(enc_all(h.take(i)), h.take(i)),
+{
+    let r = h.remove(i);
+    if i + 1 < h.len() && journal_of(enc_all(r), es2) {
+        assert(forall|k: int| 0 <= k < r.len() ==> #[trigger] r[k] == (if k < i { h[k] } else { h[k + 1] }));
+        lemma_decode_unique(r, es2);
+        assert(same_entry(r[i], es2[i]));
+        assert(r[i] == h[i + 1]);
+    }
+    let d = h.insert(i, h[i]);
+    if journal_of(enc_all(d), es2) {
+        assert(forall|k: int| 0 <= k < d.len() ==> #[trigger] d[k] == (if k < i { h[k] } else if k == i { h[i] } else { h[k - 1] }));
+        lemma_decode_unique(d, es2);
+        assert(same_entry(d[i + 1], es2[i + 1]));
+        assert(d[i + 1] == h[i]);
+    }
+    let s = h.update(i, h[j]).update(j, h[i]);
+    if i != j && journal_of(enc_all(s), es2) {
+        assert(forall|k: int| 0 <= k < s.len() ==> #[trigger] s[k] == (if k == j { h[i] } else if k == i { h[j] } else { h[k] }));
+        lemma_decode_unique(s, es2);
+        assert(same_entry(s[i], es2[i]));
+        assert(s[i] == h[j]);
+    }
+    let t = h.take(i);
+    assert(forall|k: int| 0 <= k < t.len() ==> #[trigger] t[k] == h[k]);
+}
